@@ -568,9 +568,22 @@ def init_params(cls_info):
   return m
 
 
+_SELF_ASSIGN_CACHE = {}
+
+
 def self_attr_assigns(fn):
   """[(attr, value_expr, stmt)] for `self.attr = value` in fn (incl. tuple
   targets, augmented assigns are reported with value None)."""
+  k = id(fn.node)
+  hit = _SELF_ASSIGN_CACHE.get(k)
+  if hit is not None and hit[0] is fn.node:
+    return list(hit[1])
+  out = _self_attr_assigns(fn)
+  _SELF_ASSIGN_CACHE[k] = (fn.node, tuple(out))
+  return out
+
+
+def _self_attr_assigns(fn):
   out = []
   for n in walk_no_nested_defs(fn.node):
     if isinstance(n, ast.Assign):
@@ -606,11 +619,25 @@ def _flatten_target(t, v):
     yield t, v
 
 
+_NAMES_READ_CACHE = {}
+
+
 def names_read(expr):
-  """Set of Name ids and 'self.attr' strings read in expr."""
-  out = set()
+  """Set of Name ids and 'self.attr' strings read in expr (cached per node;
+  callers must not mutate the result)."""
   if expr is None:
-    return out
+    return set()
+  k = id(expr)
+  hit = _NAMES_READ_CACHE.get(k)
+  if hit is not None and hit[0] is expr:
+    return set(hit[1])
+  out = _names_read(expr)
+  _NAMES_READ_CACHE[k] = (expr, frozenset(out))
+  return out
+
+
+def _names_read(expr):
+  out = set()
   for n in ast.walk(expr):
     if isinstance(n, ast.Name):
       out.add(n.id)
